@@ -87,6 +87,9 @@ def one(rng, crop, soil, method, i):
         sp["fm"] = gen.fm_spec(rng, cn=77)
     if gen.chance(rng, 0.3):
         sp["ffm"] = gen.fm_spec(rng, cn=77)
+    if gen.chance(rng, 0.05):
+        # bunds switched on with the default (zero) or a negligible height: "z_bund >= 0" is valid
+        sp.setdefault("fm", {}).update(bunds=True, z_bund=float(gen.pick(rng, [0.0, 0.0005])))
     if gen.chance(rng, 0.3):
         sp["gw"] = gen.gw_spec(rng, start, end, depths=(0.3, 0.8, 1.5, 2.5, 6.0, 30.0))
         if sp["gw"]["method"] == "Variable" and len(sp["gw"]["dates"]) > 1 and gen.chance(rng, 0.15):
